@@ -67,12 +67,14 @@ def r04a(ctx, run):
     missing = sorted(set(ADDRESS_BEARING) - rejected)
     site = inf.site(g["ln"])
     F = "GlobalInferenceCtx::infer_expr"
-    if missing:
-        run.finding(F, "comptime-address-kinds", inf.file, g["ln"],
-                    "the ComptimePointer guard `%s` rejects only %s; results of kind %s also contain addresses of the JIT's memory (%s), which is freed after evaluation: "
-                    "the final binary embeds dangling pointers (a comptime string prints garbage)" % (cond, sorted(rejected), missing, "; ".join("%s: %s" % (k, ADDRESS_BEARING[k]) for k in missing)))
-    else:
-        run.ok(site, "ComptimePointer guard rejects every address-bearing kind: %s" % sorted(rejected))
+    # one finding per kind (so that a known finding for one kind never hides the loss of another)
+    for k in sorted(ADDRESS_BEARING):
+        if k in rejected:
+            run.ok(site, "ComptimePointer guard rejects Ty::%s results (%s)" % (k, ADDRESS_BEARING[k]))
+        else:
+            run.finding(F, "comptime-address-kind:" + k, inf.file, g["ln"],
+                        "the ComptimePointer guard `%s` rejects only %s; a result of kind Ty::%s also contains an address of the JIT's memory (%s), which is freed after evaluation: "
+                        "the final binary embeds a dangling pointer" % (cond, sorted(rejected), k, ADDRESS_BEARING[k]))
     # aggregates: the guard must look into members (or eval must relocate)
     looks_into_members = any(w in cond for w in ("contains_pointer", "has_pointer", "any_member", "walk"))
     relocates = False
@@ -216,7 +218,7 @@ def r04c(ctx, run):
 
 def rules(ctx):
     return [
-        Rule("R04.a", "address-bearing comptime results are rejected or relocated (top level and through aggregate members)", 8, r04a),
+        Rule("R04.a", "address-bearing comptime results are rejected or relocated (top level and through aggregate members)", 16, r04a),
         Rule("R04.b", "all comptime blocks are evaluated before code generation, which receives those results and never recompiles an evaluated block", 9, r04b),
         Rule("R04.c", "capture table: read-back type width = Cranelift type width; serialisation at the recorded width", 20, r04c),
     ]
